@@ -2283,7 +2283,7 @@ def strip_annotations(func_node):
 _DISJOINT = {"str", "bytes", "int", "float", "list", "dict", "tuple", "set"}
 
 
-def fold_declared_types(func_node):
+def fold_declared_types(func_node, distrusted=()):
     """`isinstance(p, T)` on a parameter declared `p: T0` (T0 a builtin type, p never rebound in the function) is decided by the
     declaration: True when T0 is (one of) T, False when T names other builtin types only.  The branch that cannot be taken under the
     function's own contract is removed (type-coercion helpers copied into a typed caller: `to_bytes(content)` with `content: str` is
@@ -2292,7 +2292,7 @@ def fold_declared_types(func_node):
     decl = {}
     a = func_node.args
     for x in a.posonlyargs + a.args + a.kwonlyargs:
-        if isinstance(x.annotation, ast.Name) and x.annotation.id in _DISJOINT:
+        if isinstance(x.annotation, ast.Name) and x.annotation.id in _DISJOINT and x.arg not in distrusted:
             decl[x.arg] = x.annotation.id
     if not decl:
         return 0
